@@ -298,6 +298,14 @@ class FortranEngine:
                 self.iterations[t] = iteration
                 solved[i] = False
 
+            # `t` is out of bounds or cannot accommodate the lags/leads
+            elif error_code in (11, 12, 13, 14):
+                raise IndexError(
+                    f'Position `t` ({t}) is out of bounds or cannot accommodate the '
+                    f'lags ({self.lags}) and leads ({self.leads}) of the current model '
+                    f'instance, with {len(self.span)} periods in span'
+                )
+
             # Any uncaught errors
             else:
                 raise FortranEngineError(
@@ -451,6 +459,15 @@ class FortranEngine:
 
         elif error_code == 22 and errors == 'skip':
             status = SolutionStatus.SKIPPED.value
+
+        # `t` is out of bounds or cannot accommodate the lags/leads (as in
+        # `_evaluate()` and the Python version of `solve_t()`)
+        elif error_code in (11, 12, 13, 14):
+            raise IndexError(
+                f'Position `t` ({t}) is out of bounds or cannot accommodate the '
+                f'lags ({self.lags}) and leads ({self.leads}) of the current model '
+                f'instance, with {len(self.span)} periods in span'
+            )
 
         else:
             raise FortranEngineError(
